@@ -91,7 +91,11 @@ class GraphNode(HyperNode):
         # Core HyperNode attributes
         self.name = resolved_name
         self.inputs = graph.inputs.all
-        self.outputs = graph.selected if graph.selected is not None else graph.outputs
+        # An ordering signal emitted inside the wrapped graph stays inside it: the
+        # nested run returns values, not signals, so the wrapper does not offer it
+        exposed = graph.selected if graph.selected is not None else graph.outputs
+        emit_only = graph._get_emit_only_outputs()
+        self.outputs = tuple(o for o in exposed if o not in emit_only)
 
     @property
     def graph(self) -> "Graph":
